@@ -22,7 +22,7 @@ MethodsC04 == { Mth("", "GET", "/x", h, FALSE, sec) : h \in BOOLEAN, sec \in Sec
 CfgsC01 == { Cfg("gin", v, FALSE, NoSec, <<"s1", "s2">>) : v \in {"3.0.0", "3.1.0"} }
 \* (tag "" = no @Tag; together with prefix "" the controller has no doc comment at all)
 CtrlsC01 == { Ctl(pk, f, n, pre, tg, <<>>) : pk \in {"p1", "p2"}, f \in {"f1", "f2"}, n \in {"AController", "BController"}, pre \in {"", "/a", "/a/", "/{t}", "/b"}, tg \in {"Tag", ""} }
-MethodsC01 == { Mth(f, v, r, h, d, <<>>) : f \in {"", "f2"}, v \in {"GET", "POST", "DELETE"}, r \in {"/", "/x", "x", "//x", "/x/", "/{id}", "/{id}/y"},
+MethodsC01 == { Mth(f, v, r, h, d, <<>>) : f \in {"", "f2"}, v \in {"GET", "POST", "DELETE"}, r \in {"/", "/x", "x", "//x", "/x/", "/{id}", "/{id}/y", "/{key}"},
                                            h \in BOOLEAN, d \in BOOLEAN }
 
 \* ---- C15 at project level: few verbs, overlapping literal/parameter routes under prefixes that create or remove the overlap -----
@@ -38,13 +38,14 @@ CtrlsSimD == { [c EXCEPT !.desc = ds] : c \in CtrlsSim, ds \in {"", "\n", "A con
 \* doc-comment layouts: no free text, plain text, nothing but blank comment lines, text followed / preceded by blank lines
 DescChoices == {"", "Does something", "\n", "\nText after a blank line", "Text\n\nmore text\n"}
 MethodsSim == { [Mth(f, v, r, h, d, sec) EXCEPT !.desc = ds] : f \in {"", "f1", "f2"}, v \in {"GET", "POST", "PUT", "DELETE", "PATCH"},
-                                          r \in {"/", "/x", "x", "//x", "/x/", "/{id}", "/{id}/y", "/x/{id}", "/y"}, h \in BOOLEAN, d \in BOOLEAN, sec \in SecShapes,
+                                          r \in {"/", "/x", "x", "//x", "/x/", "/{id}", "/{id}/y", "/x/{id}", "/y", "/{key}", "/x/{key}"}, h \in BOOLEAN, d \in BOOLEAN, sec \in SecShapes,
                                           ds \in DescChoices }
 \* ---- C06: parameter lists, pointer-ness, locations, aliases, validators, return shapes, error responses --------------------
 NoTypes == {<<>>}
 Fld(n, t, js, v) == [name |-> n, type |-> t, json |-> js, valid |-> v, desc |-> "", embed |-> FALSE, deprecated |-> FALSE]
 FldD(n, t, js, v) == [Fld(n, t, js, v) EXCEPT !.deprecated = TRUE]      \* a field carrying its own "// @Deprecated" annotation
 Con(n, v) == [name |-> n, value |-> v]
+ConF(n, v, f) == [name |-> n, value |-> v, file |-> f]       \* a constant declared in another file of the enum's package
 TItem  == [pkg |-> "p1", file |-> "types", name |-> "Item", kind |-> "struct", base |-> "", fields |-> <<Fld("Name", "string", "name", "required"), Fld("Count", "*int", "count", "")>>,
            consts |-> <<>>, desc |-> "An item", raw |-> "", errorT |-> FALSE, deprecated |-> FALSE]
 TMyErr == [pkg |-> "p1", file |-> "types", name |-> "MyErr", kind |-> "struct", base |-> "", fields |-> <<Fld("Code", "int", "code", "")>>,
@@ -143,13 +144,18 @@ TTicketPlain == Ty("p1", "Ticket", "struct", "", <<Fld("ID", "string", "id", "re
                                                Fld("Note", "string", "note", ""), Fld("Leg", "p1.Legacy", "leg", ""), Fld("Kind", "p1.OldKind", "kind", ""),
                                                Fld("Addrs", "[]p1.Address", "addrs", ""), Fld("ByName", "map[string]p1.Address", "byName", "")>>, <<>>)
 TBacklog == Ty("p1", "Backlog", "struct", "", <<Fld("Top", "p1.Priority", "top", ""), Fld("Where", "p1.Address", "where", "")>>, <<>>)
+\* an enum whose constants are spread over several files of its package
+TSplitS == Ty("p1", "Stage", "enum", "string", <<>>, <<Con("SNew", "\"new\""), ConF("SDone", "\"done\"", "consts"), ConF("SGone", "\"gone\"", "more")>>)
+TSplitI == Ty("p2", "Rank", "enum", "int", <<>>, <<ConF("RLow", "1", "ranks"), Con("RMid", "5"), ConF("RTop", "9", "ranks")>>)
+TJob == Ty("p1", "Job", "struct", "", <<Fld("Stage", "p1.Stage", "stage", "required"), Fld("Rank", "p2.Rank", "rank", "")>>, <<>>)
 TypeZoo == { <<TItem, TMyErr, TColor, TOrder, TLine, TLevel, TCode, TUnused>>, <<TItem, TMyErr, TColor, TBase, TDeriv, TUnused>>,
              <<TItem, TMyErr, TColor, TBase, TAudit, TStamp, TDoc>>,
              <<TItem, TMyErr, TColor, TPrio, TAddr, TLegacy, TOldEn, TTicket, TBacklog>>, <<TItem, TMyErr, TColor, TPrio, TAddr, TLegacy, TOldEn, TTicketPlain, TBacklog>>,
+             <<TItem, TMyErr, TColor, TSplitS, TSplitI, TJob>>,
              <<TItem, TMyErr, TColor, TFlag, TUser>>, <<TItem, TMyErr, TColor, TFlag, TUser, TOrder, TLine, TLevel, TCode, TBase, TDeriv>> }
-ParamsC07 == { Prm("e", t, "Body", "", "") : t \in {"p1.Order", "*p1.Order", "[]p1.Order", "p1.Derived", "p1.User", "p1.Item", "map[string]p1.Item", "p1.Doc", "p1.Ticket", "p1.Backlog"} }
-             \cup { Prm("b", t, "Query", "", "") : t \in {"p1.Flag", "p2.Level", "p2.Code", "string"} }
-RetsC07 == { <<"error">>, <<"p1.Doc", "error">>, <<"p1.Ticket", "error">>, <<"[]p1.Backlog", "error">>, <<"p1.Legacy", "error">>, <<"p1.Order", "error">>, <<"[]p1.Derived", "error">>, <<"p1.User", "error">>, <<"p2.Line", "error">>, <<"*p1.Item", "error">>, <<"p1.Flag", "error">>,
+ParamsC07 == { Prm("e", t, "Body", "", "") : t \in {"p1.Order", "*p1.Order", "[]p1.Order", "p1.Derived", "p1.User", "p1.Item", "map[string]p1.Item", "p1.Doc", "p1.Ticket", "p1.Backlog", "p1.Job"} }
+             \cup { Prm("b", t, "Query", "", "") : t \in {"p1.Flag", "p2.Level", "p2.Code", "string", "p1.Stage", "p2.Rank"} }
+RetsC07 == { <<"error">>, <<"p1.Doc", "error">>, <<"p1.Job", "error">>, <<"p2.Rank", "error">>, <<"p1.Ticket", "error">>, <<"[]p1.Backlog", "error">>, <<"p1.Legacy", "error">>, <<"p1.Order", "error">>, <<"[]p1.Derived", "error">>, <<"p1.User", "error">>, <<"p2.Line", "error">>, <<"*p1.Item", "error">>, <<"p1.Flag", "error">>,
              <<"map[string]p2.Line", "error">>, <<"p1.Item", "p1.MyErr">> }
 CfgsC07 == CfgsC06
 MethodsC07 == { MthP("POST", ps, ret, errs, 0) : ps \in {<<>>} \cup {<<a>> : a \in ParamsC07}, ret \in RetsC07, errs \in {<<>>, <<E(500)>>} }
@@ -214,7 +220,8 @@ TypesC09 == { <<TItem, TMyErr, TColor, TOrder, TLine, TLevel, TCode>> }
 
 \* ---- C11: every validator rule either converter knows x applicable / inapplicable field types (one field per rule) -----------------
 RuleList == << "required", "omitempty", "email", "uuid", "ip", "ipv4", "ipv6", "hostname", "date", "datetime", "gt=1", "gte=2", "lt=9", "lte=8", "min=1", "max=7", "len=5",
-               "pattern=^a+$", "minItems=1", "maxItems=3", "uniqueItems", "enum=a|b", "oneof=a b", "unknownrule=3", "gte=2,lte=16", "required,min=3,max=40", "gt=0,lt=10,required", "enum=1|2", "oneof=1 2", "enum=a", "oneof=red blue" >>
+               "pattern=^a+$", "minItems=1", "maxItems=3", "uniqueItems", "enum=a|b", "oneof=a b", "unknownrule=3", "gte=2,lte=16", "required,min=3,max=40", "gt=0,lt=10,required", "enum=1|2", "oneof=1 2", "enum=a", "oneof=red blue",
+               "oneof=required optional", "ne=required", "min=1,oneof=xrequired y" >>
 RuleFieldTypes == {"string", "*string", "int", "uint8", "float64", "bool", "[]string", "[]int", "p1.Color", "map[string]int", "time.Time", "[]byte"}
 RulesFields(ft) == [i \in DOMAIN RuleList |-> Fld("F" \o ToString(i), ft, "f" \o ToString(i), RuleList[i])]
 TRules(ft) == Ty("p1", "Rules", "struct", "", RulesFields(ft), <<>>)
